@@ -1,9 +1,35 @@
 (** C06 — printing then reading returns the same value.
     Proved in full generality: the printer's escaping of strings (quoted form and raw ¬ form)
-    is undone by the reader for EVERY string of code points.  The composition through the
-    scanner for whole nested values (C06_print_read) is checked by correspondence and stated
-    here as computed instances; see DESIGN.md for what remains to be proved. *)
-From Lisp Require Import Base Value Core Scanner Reader Printer PrintReadProofs Equal.
+    is undone by the reader for EVERY string of code points, and the composition through the
+    scanner and the reader for whole nested values of any depth (C06_print_then_read). *)
+From Lisp Require Import Base Value Core Scanner Reader Printer PrintReadProofs Equal PrintScan PrintInt PrintParse.
+
+(** THE property, for every printable value [pv]: nil, booleans, every int64, every string and keyword (keyword names
+    over the scanner's identifier characters), symbols that scan as one identifier (not nil/true/false, not a
+    $placeholder), and lists, vectors, hash maps (distinct keys) and sets (distinct members) of such values to any
+    depth — whose printed text contains neither U+0000 nor an invalid byte (the open finding, [C06_nul_refuted]).
+    Reading the printed text gives the value back; [unpos] erases the source positions the reader attaches to
+    symbols, lists and vectors. *)
+Theorem C06_print_then_read : forall v, pv v = true -> clean (pr_str true v) = true ->
+  exists v', read_str None None None (pr_str true v) = Ok v' /\ unpos v' = unpos v.
+Proof. exact print_then_read. Qed.
+
+(** its two halves: the scanner cuts the printed text into exactly the tokens the printer wrote ... *)
+Theorem C06_printed_text_scans_to_its_tokens : forall v, pv v = true -> clean (pr_str true v) = true ->
+  exists ts, tokenize (pr_str true v) = Some ts /\ map tt ts = toks v.
+Proof. exact tokenize_printed. Qed.
+
+(** ... and the printed numeral of every int64 parses back to the number *)
+Theorem C06_integers : forall z, in_int64 z = true -> parse_int (Wire.show_Z z) = Some z.
+Proof. exact parse_show_Z. Qed.
+
+(** the class is not empty: a nested value with the hard characters meets the premises *)
+Example C06_premises_hold :
+  let v := VList [VSym (s_ "x-1") None; VStr (KW :: s_ "k"); VInt (-9223372036854775808); VStr (s_ "a""b\c");
+                  VVec [VNil; VBool true; VStr [10; 9; 172]%N] None;
+                  VMap [(KW :: s_ "a", VList [] None); (s_ "{""k"": 1}", VSet [s_ "x"; KW :: s_ "y"])]] None in
+  pv v = true /\ clean (pr_str true v) = true.
+Proof. vm_compute. split; reflexivity. Qed.
 
 (** quoted form: unescape . escape = id — for all strings, U+029E, backslashes, quotes,
     newlines included (the code before fix D8 failed this for U+029E) *)
@@ -44,6 +70,9 @@ Proof. vm_compute. reflexivity. Qed.
 Example C06_nul_refuted : roundtrip (VStr [97; 0; 98]%N) = false.
 Proof. vm_compute. reflexivity. Qed.
 
+Print Assumptions C06_print_then_read.
+Print Assumptions C06_printed_text_scans_to_its_tokens.
+Print Assumptions C06_integers.
 Print Assumptions C06_unescape_escape.
 Print Assumptions C06_undouble_double.
 Print Assumptions C06_printed_string_token_reads_back.
